@@ -549,6 +549,27 @@ static void run_op(void)
                 memset(&at, 0, sizeof at);        /* a genuinely fresh object, as a newly created parser would be */
                 cat_init(&at, &desc, &iface, use_mutex ? &mutex_if : NULL);
                 after_op();
+        } else if (strcmp(o, "sc") == 0) {
+                size_t n; uint8_t *p = unhex(tok[1], &n);
+                char *nm = calloc(n + 1, 1);
+                const struct cat_command *f;
+                memcpy(nm, p, n);
+                f = cat_search_command_by_name(&at, nm);
+                printf("= sc %d\n", f == NULL ? -1 : cmd_index(f));
+                free(nm); free(p);
+        } else if (strcmp(o, "sv") == 0) {
+                size_t n; uint8_t *p = unhex(tok[2], &n);
+                char *nm = calloc(n + 1, 1);
+                int ci = atoi(tok[1]);
+                memcpy(nm, p, n);
+                if (ci < 0 || ci >= ncmds_total) printf("= sv -2\n");
+                else {
+                        const struct cat_variable *f = cat_search_variable_by_name(&at, pool_ptr[ci], nm);
+                        int a = -1, b = -1;
+                        if (f != NULL) var_index(f, &a, &b);
+                        printf("= sv %d\n", f == NULL ? -1 : b);
+                }
+                free(nm); free(p);
         } else if (strcmp(o, "B") == 0) {
                 dump_buffers();
         } else {
